@@ -47,6 +47,16 @@ def operator_case(rep, rng, mesh, mi, with_model):
     ops1.set_link_exponents(A)
     ops2 = MeshOperators(mesh, SparseSolver.SUPERLU, fixed_sites=fixed, fix_psi=True)
     ops2.set_link_exponents(A2)
+    # the gauge transformation applied IN PLACE to the caller's own array, handed over again as the same object
+    ops3 = MeshOperators(mesh, SparseSolver.SUPERLU, fixed_sites=fixed, fix_psi=True)
+    buf = A.copy()
+    ops3.set_link_exponents(buf)
+    buf += A2 - A
+    ops3.set_link_exponents(buf)
+    if abs(ops3.psi_laplacian - ops2.psi_laplacian).max() > 1e-12 * abs(ops2.psi_laplacian).max() or \
+            abs(ops3.psi_gradient - ops2.psi_gradient).max() > 1e-12 * abs(ops2.psi_gradient).max():
+        rep.violation("operators after a gauge transformation applied in place to the caller's array differ from those built for the "
+                      "transformed potential", {"mesh": mi, "sites": n})
     psi = np.array([complex(rng.gauss(0, 1), rng.gauss(0, 1)) for _ in range(n)])
     if Ascale < 1e-6:
         psi = np.ones(n, dtype=complex) * np.exp(0.7j)     # uniform: the supercurrent is then the response to A alone
